@@ -140,3 +140,10 @@ CLAIMS["C24"] = {"engine": "offer", "level": "model_checking",
                  "text": "TLC explores every abstract PSBT of up to 2 (thorough: 3) inputs over 60 input classes (owner x contents {none, X, Y, X+Y, Y+X} x runes x signature {none, standard, not preserved}), both namings, both balance outcomes and every choice of which signatures the node preserves; invariant: a broadcast implies exactly one wallet input holding exactly the named inscription and no runes, the exact balance change, all other inputs signed and their signatures unchanged. Generated concrete PSBTs (damaged well-formed offers) are presented to the real command; TLC requires on the recorded trace that whatever reached the mempool is the offered transaction and satisfies the same predicate with the output contents read from the real index, that refusals broadcast nothing, and (MODEL-DRIFT only) that the outcome equals the model's decision",
                  "note": "trusted: TLC, the harness PSBT builder, mockcore as the node (its walletprocesspsbt/finalizepsbt replace every witness by a fixed 64-byte one, which is what makes 'not preserved' signatures observable; its simulaterawtransaction is told the node's network through the guarded hook)",
                  "technique": "TLC model checking of the acceptance gate (OfferModel) + TLA+ trace validation of the real command on generated PSBTs (OfferTrace)"}
+
+ENGINES.append({"name": "batch", "path": "spec/BatchPlan.tla", "serves_properties": ["C21"],
+                "kind_free_text": "TLA+ model of the batch planner's bookkeeping (pointers, postage sums, parent inputs/outputs, reveal layout per mode, reported locations) composed with the indexer's pointer placement rule; BatchModel is checked exhaustively by TLC; BatchTrace validates what the real `ord wallet batch` reports against what the real index holds after mining"})
+CLAIMS["C21"] = {"engine": "batch", "level": "model_checking",
+                 "text": "TLC explores every small batch (4 modes x 0-2 parents x 1-3 (thorough: 4) inscriptions x values x etching with/without premine): the location the planner reports for each inscription is where the indexer's pointer rule places it, every parent's sat returns to its own output, the reveal is funded and the premine output exists. Random batch files are then run through the real command; after mining, TLC requires on the recorded trace: as many inscriptions as entries and no extra one in the reveal transaction, every reported id exists with the index's satpoint (and the explorer's) equal to the reported location, destinations as asked and as reported, every new inscription's parents in the index equal to the batch's parents, parents back on wallet outputs of the reveal, the commit transaction spending only cardinal wallet outputs (other than the chosen satpoint), the reveal spending no non-cardinal output other than the parents, the chosen sat being the inscribed one, and an included etching creating the named rune with the requested premine held at the reported output (no location reported for a zero premine); the reveal layout and reported locations are also compared with the model's (MODEL-DRIFT only)",
+                 "note": "trusted: TLC, the harness, mockcore as the node (no signature or maturity checks beyond what ord itself does); `sat:` selection, compression and gallery entries are not exercised",
+                 "technique": "TLC model checking of the planner's bookkeeping against the pointer placement rule (BatchModel) + TLA+ trace validation of reported vs indexed results of the real command (BatchTrace)"}
